@@ -90,6 +90,8 @@ def _norm_arm(text):
     t = re.sub(r"\b([dz])([a-z0-9]+_)\(", r"#\2(", t)
     t = t.replace("MAT_BUFD", "MAT_BUF#").replace("MAT_BUFZ", "MAT_BUF#")
     t = re.sub(r"\.([dz])\b", ".#", t)
+    t = t.replace("(double*)", "(#*)").replace("(complex_t*)", "(#*)")
+    t = t.replace("sizeof(double)", "sizeof(#)").replace("sizeof(complex_t)", "sizeof(#)")
     return t
 
 
@@ -148,6 +150,22 @@ def sibling_rule(rule, c, wrappers, pair_exceptions=None):
                 continue
             bad = None
             for (dn, da, _), (zn, za, zn_node) in zip(d, z):
+                if sum(1 for a in da if a.strip() == "NULL") >= 2 and sum(1 for a in za if a.strip() == "NULL") >= 2:
+                    continue      # workspace queries: no array is referenced, only lwork matters
+                if len(da) != len(za):
+                    # complex LAPACK routines take extra real work arrays (rwork, lrwork),
+                    # passed as NULL / a dummy in the workspace query
+                    import difflib
+                    na, nb = [_norm_arm(x) for x in da], [_norm_arm(x) for x in za]
+                    sm = difflib.SequenceMatcher(a=na, b=nb, autojunk=False)
+                    extra, okalign = [], True
+                    for tag, i1, i2, j1, j2 in sm.get_opcodes():
+                        if tag == "insert":
+                            extra += list(range(j1, j2))
+                        elif tag != "equal":
+                            okalign = False
+                    if okalign and all(re.search(r"\bl?rw(ork|l)\b|^NULL$|&lrwork|&rwl", za[j].strip()) for j in extra):
+                        za = [a for j, a in enumerate(za) if j not in extra]
                 if len(da) != len(za):
                     bad = (dn, zn, "argument count %d vs %d" % (len(da), len(za)))
                     break
@@ -244,7 +262,7 @@ def naming_rule(rule, c, wrappers):
             m2 = re.fullmatch(r"ld([A-Za-z]\w*)", var)
             m3 = re.fullmatch(r"i([a-z])", var)
             if m1 and m1.group(1) in mats:
-                exp = {"offset" + mats[m1.group(1)], "offset"}
+                exp = {"offset" + mats[m1.group(1)], "offset", "offset" + m1.group(1)}
             elif m2 and m2.group(1) in mats:
                 exp = {"ld" + mats[m2.group(1)]}
             elif m3 and m3.group(1) in mats:
